@@ -75,7 +75,7 @@ def build_world(wdir, gdir, cc='gcc', cflags=('-O2', '-g'), world_srcs=(), defin
     """compile the library of the current working tree plus the thunks with one
     compiler/flag set; returns the list of object files"""
     os.makedirs(wdir, exist_ok=True)
-    base = [cc, '-std=gnu99', '-I' + os.path.join(REPO, 'include'), '-I' + os.path.join(ROOT, 'world')] + list(cflags) + list(defines)
+    base = [cc, '-std=gnu99', '-I' + os.path.join(REPO, 'include'), '-I' + os.path.join(REPO, 'src'), '-I' + os.path.join(ROOT, 'world')] + list(cflags) + list(defines)
     cmds, objs = [], []
     gen_wraps = sorted(glob.glob(os.path.join(gdir, 'wrap_*.c')))
     for s in repo_sources() + gen_wraps + [os.path.join(ROOT, 'world', w) for w in world_srcs]:
